@@ -102,10 +102,11 @@ type expJ struct {
 }
 
 type tcase struct {
-	Req    head   `json:"req"`
-	Script string `json:"script"`
-	Ops    []opJ  `json:"ops"`
-	Exp    expJ   `json:"exp"`
+	Req     head   `json:"req"`
+	Script  string `json:"script"`
+	Ops     []opJ  `json:"ops"`
+	Exp     expJ   `json:"exp"`
+	Variant int    `json:"variant"` // chosen here by seed: spelling of the header name "Host" and where the Host lines stand
 }
 
 // beh lets a replay file of this driver pass through TestC12 (which decodes every replay file of the
@@ -193,10 +194,18 @@ func (fx *fixture) wireBytes(tc *tcase, id string) []byte {
 	port := fx.port(h.Lst)
 	var b strings.Builder
 	fmt.Fprintf(&b, "%s %s HTTP/%s\r\n", h.M, fx.target(h), h.Ver)
-	for _, hh := range h.Hh {
-		fmt.Fprintf(&b, "Host: %s\r\n", renderHost(hh, port))
+	hostLines := func() {
+		for _, hh := range h.Hh {
+			fmt.Fprintf(&b, "%s: %s\r\n", []string{"Host", "host", "HOST"}[tc.Variant%3], renderHost(hh, port))
+		}
+	}
+	if tc.Variant/3%2 == 0 {
+		hostLines()
 	}
 	fmt.Fprintf(&b, "X-Case: %s\r\nReferer: %s\r\nX-Forwarded-For: 203.0.113.9\r\nX-Real-IP: 203.0.113.9\r\n", id, id)
+	if tc.Variant/3%2 == 1 {
+		hostLines()
+	}
 	if tc.Script != "default" {
 		fmt.Fprintf(&b, "X-Front: %s\r\n", scriptText(tc.Ops))
 	}
@@ -499,11 +508,19 @@ func (l *logView) refresh() {
 	l.mu.Unlock()
 }
 
+// processCount counts the process-log lines equal to line; it waits a moment for the first one (a handler that
+// hijacked the connection and then panics is recovered after the client has seen the connection close).
 func (l *logView) processCount(line string) int {
-	l.refresh()
-	l.mu.Lock()
-	defer l.mu.Unlock()
-	return strings.Count(l.process, line+"\n")
+	for try := 0; ; try++ {
+		l.refresh()
+		l.mu.Lock()
+		n := strings.Count(l.process, line+"\n")
+		l.mu.Unlock()
+		if n > 0 || try >= 100 {
+			return n
+		}
+		time.Sleep(5 * time.Millisecond)
+	}
 }
 
 func (l *logView) processWith(id string) string {
@@ -670,6 +687,9 @@ func TestCx12Front(t *testing.T) {
 		kept = append(kept, c)
 	}
 	cases = kept
+	for i := range cases {
+		cases[i].Variant = rnd.Intn(6)
+	}
 
 	if hx.SelfTest() {
 		// corrupt one expectation of every kind the clauses rest on: each must be noticed
@@ -750,14 +770,24 @@ func TestCx12Front(t *testing.T) {
 			}
 		}()
 	}
-	for i := range cases {
-		if i < 5 {
-			res.Sample(map[string]interface{}{"head": strings.SplitN(string(fx.wireBytes(&cases[i], "id")), "GET /sentinel", 2)[0], "expected": cases[i].Exp})
+	// thorough: every head twice, the second time with another spelling of the Host lines
+	passes := 1
+	if hx.Thorough() {
+		passes = 2
+	}
+	for pass := 0; pass < passes; pass++ {
+		for i := range cases {
+			if pass == 0 && i < 5 {
+				res.Sample(map[string]interface{}{"head": strings.SplitN(string(fx.wireBytes(&cases[i], "id")), "GET /sentinel", 2)[0], "expected": cases[i].Exp})
+			}
+			tc := cases[i]
+			tc.Variant = (tc.Variant + pass*(1+i%5)) % 6
+			jobs <- &tc
 		}
-		jobs <- &cases[i]
 	}
 	close(jobs)
 	wg.Wait()
+	wantStrict, wantAbort, wantNoSite, wantPanic = passes*wantStrict, passes*wantAbort, passes*wantNoSite, passes*wantPanic
 	res.Replayed = res.Evaluations
 
 	// the process log as a whole: nothing but what the model's cases account for (confirmation re-runs excluded)
